@@ -154,7 +154,7 @@ pub fn run(ctx: &Ctx) {
             (a.check)(!(b << (8 * pos)), 0x00, 0xFFFF, l)
         });
     }
-    let n = ctx.tier.pick(600_000, 30_000_000);
+    let n = ctx.tier.pick(6_000_000, 60_000_000);
     ctx.par_proptest(
         "stratified-random",
         n,
